@@ -27,7 +27,9 @@ NONE = -1
 class Rig:
     """A real TaskManager with instrumented tasks / deferred functions, driven by Kernel.tla operations."""
 
-    def __init__(self, K, rec, interval, offset, task_defers, F, fn_defers, traises, fraises, unit=1.0):
+    def __init__(self, K, rec, interval, offset, task_defers, F, fn_defers, traises, fraises, unit=1.0, task_does=None, loop="run_once"):
+        self.task_does = task_does or {}
+        self.loop = loop            # "run_once" | "run": which of the library's two loops executes a pass
         self.K, self.F, self.rec = list(K), list(F), set(rec)
         self.interval, self.offset = interval, offset
         self.task_defers, self.fn_defers = task_defers, fn_defers
@@ -81,6 +83,31 @@ class Rig:
         f = self.task_defers.get(t.k, 0)
         if f:
             self._defer(f)
+        a = self.task_does.get(t.k)
+        if a:                           # what this task does to another one from inside its process_task
+            op, j, dt = a
+            if op == "suspend":
+                self.tasks[j].suspend_task()
+            else:
+                self.inst_at[j] = self.mnow()
+                self.tasks[j].install_task(when=(self.mnow() + dt) * self.unit)
+
+    def _pass_of_core_run(self):
+        """one pass through the production loop core.run (asyncore.loop stubbed: it ends the loop when nothing is due)"""
+        import asyncore
+        real = asyncore.loop
+
+        def fake(timeout=None, count=None, **kw):
+            tm = vt.tm
+            if not core.deferredFns and not (tm.tasks and tm.tasks[0][0] <= vt.now):
+                core.running = False
+        asyncore.loop = fake
+        core.asyncore.loop = fake
+        try:
+            core.run(sigterm=None, sigusr1=None)
+        finally:
+            asyncore.loop = real
+            core.asyncore.loop = real
 
     def _defer(self, f):
         self.submitted.append(f)
@@ -112,7 +139,10 @@ class Rig:
             self._defer(k)
         elif op == "run":
             vt.now = (self.mnow() + a) * self.unit
-            core.run_once()
+            if self.loop == "run":
+                self._pass_of_core_run()
+            else:
+                core.run_once()
         elif op == "tick":
             vt.now = (self.mnow() + a) * self.unit       # the clock moves, the loop does not run
         else:
@@ -142,7 +172,11 @@ CONFIGS = {
     "t": dict(K=[1, 2, 3, 4], rec=[4], interval={4: 2}, offset={4: 1}, task_defers={2: 1, 3: 2}, F=[1, 2, 3, 4, 5, 6],
               fn_defers={1: 4, 4: 5, 2: 6}),
     # many one-shot timers pending at once (trace validation only): removals from the middle of a deep heap
-    "h": dict(K=list(range(1, 13)), rec=[], interval={}, offset={}, task_defers={}, F=[1], fn_defers={}),
+    "h": dict(K=list(range(1, 13)), rec=[], interval={}, offset={}, task_defers={}, F=[1], fn_defers={},
+              task_does={1: ("suspend", 2, 0), 3: ("at", 4, 2), 5: ("suspend", 6, 0), 7: ("at", 8, 5)}),
+    # tasks that act on other tasks from inside process_task: a handler cancelling a timeout, a handler re-arming one
+    "e": dict(K=[1, 2, 3, 4], rec=[], interval={}, offset={}, task_defers={}, F=[1], fn_defers={},
+              task_does={1: ("suspend", 2, 0), 3: ("at", 4, 1)}),
 }
 
 
@@ -190,7 +224,8 @@ def cfg_for(c, mode, traises_sets="{{}}", fraises_sets="{{}}", times="{1, 2}", d
     offs = "[k \\in %s |-> CASE %s]" % (tla_set(rec), " [] ".join("k = %d -> %d" % (k, c["offset"][k]) for k in rec)) if rec else "<<>>"
     defs = {"Interval": inter, "Offset": offs, "TaskDefers": tla_fn(c["task_defers"], range(1, n + 1)),
             "FnDefers": tla_fn(c["fn_defers"], range(1, max(c["F"]) + 1)),
-            "TaskRaisesSets": traises_sets, "FnRaisesSets": fraises_sets}
+            "TaskRaisesSets": traises_sets, "FnRaisesSets": fraises_sets,
+            "TaskDoes": "<<" + ", ".join('<<"%s", %d, %d>>' % tuple(c.get("task_does", {}).get(k, ("none", 0, 0))) for k in range(1, n + 1)) + ">>"}
     consts = {"K": tla_set(c["K"]), "Rec": tla_set(rec), "F": tla_set(c["F"]), "Times": times, "Deltas": deltas, "Steps": steps, "TickSteps": ticks, "MaxLevel": str(maxlevel),
               "DropBatchOnRaise": "TRUE" if drop else "FALSE"}
     if mode == "mc":
@@ -306,10 +341,10 @@ def replay_graph(chk, name, cname, c, **kw):
 HANGS = [0]
 
 
-def record_history(c, traises, fraises, ops):
+def record_history(c, traises, fraises, ops, loop="run_once"):
     if HANGS[0] >= 3:
         return []           # the kernel hangs; three demonstrations are enough, do not burn 10 s per history
-    rig = Rig(traises=traises, fraises=fraises, **c)
+    rig = Rig(traises=traises, fraises=fraises, loop=loop, **c)
     evs = []
     for op, k, a in ops:
         try:
@@ -585,6 +620,7 @@ def main(tier, seed):
            maxlevel=7 if thorough else 5)
     run_mc(chk, "t", t, traises_sets="{{}}", fraises_sets="SUBSET {1, 2, 3, 4, 5, 6}", times="{1}", deltas="{0}",
            steps="{0, 1}", maxlevel=7 if thorough else 5)
+    run_mc(chk, "e", CONFIGS["e"], traises_sets="{{}, {1}}", times="{1, 2}", deltas="{1}", steps="{0, 1, 2}", maxlevel=7 if thorough else 6)
     # the clock also moves between passes (Tick): installations are relative to the clock as it is then
     tk = dict(K=[1, 2], rec=[2], interval={2: 2}, offset={2: 1}, task_defers={}, F=[1], fn_defers={})
     run_mc(chk, "tick", tk, traises_sets="{{}}", times="{1, 3}", deltas="{1}", steps="{0, 1}", ticks="{1}", maxlevel=7 if thorough else 6)
@@ -596,6 +632,7 @@ def main(tier, seed):
     walks = replay_graph(chk, "a4", "a", a, traises_sets="{{}, {2}, {2, 3}}" if thorough else "{{}, {2}}",
                          fraises_sets="{{}, {2}, {1}, {1, 2}}" if thorough else "{{2}, {1}}", maxlevel=4)
     walks += replay_graph(chk, "r4", "r", r, traises_sets="{{}}", times="{1}", deltas="{1}", steps="{0, 1, 2, 3}", maxlevel=6 if thorough else 5)
+    walks += replay_graph(chk, "e4", "e", CONFIGS["e"], traises_sets="{{}}", times="{1, 2}", deltas="{1}", steps="{0, 1, 2}", maxlevel=5 if thorough else 4)
     # T: code -> spec
     traces = []
     wid = 1000000
@@ -620,9 +657,16 @@ def main(tier, seed):
     for i in range(300 if thorough else 60):
         c = CONFIGS["h"]
         ops = heap_ops(rng, c, rng.choice([40, 80, 200]))
-        evs = record_history(c, [], [], ops)
+        evs = record_history(c, [], [], ops, loop="run" if i % 2 else "run_once")       # (nothing raises: both loops agree)
         traces.append(("h", {"tid": 2000000 + i, "traises": [], "fraises": [], "evs": evs, "ops": [list(o) for o in ops]}))
         chk.case(("H", i), nontrivial=True, n=len(evs))
+    for i in range(400 if thorough else 120):
+        c = CONFIGS["e"]
+        tr = [2] if i % 5 == 4 else []
+        ops = random_ops(rng, c, rng.choice([10, 30, 60]), times=(0, 1, 1, 2, 2, 3), deltas=(0, 1, 1, 2), steps=(0, 1, 1, 2))
+        evs = record_history(c, tr, [], ops, loop="run" if (i % 2 and not tr) else "run_once")
+        traces.append(("e", {"tid": 3000000 + i, "traises": tr, "fraises": [], "evs": evs, "ops": [list(o) for o in ops]}))
+        chk.case(("E", i), nontrivial=True, n=len(evs))
     base = nrand
     for sub, ops in batch_subset_traces(t, 6 if thorough else 5):
         base += 1
@@ -630,7 +674,7 @@ def main(tier, seed):
         traces.append(("t", {"tid": base, "traises": [], "fraises": sub, "evs": evs, "ops": [list(o) for o in ops]}))
         chk.case(("batch", tuple(sub), len(ops)), nontrivial=bool(sub), n=len(evs))
         chk.monitor("FailureIsolation", 1 if sub else 0)
-    for cname in ("a", "r", "t", "h"):
+    for cname in ("a", "r", "t", "h", "e"):
         validate_traces(chk, cname, CONFIGS[cname], [x for n_, x in traces if n_ == cname], cname)
     recurring_float_grid(chk, rng, 0)
     core_run_loop(chk, rng, 300 if thorough else 60)
